@@ -67,42 +67,84 @@ structure SpendInfo where
 
 abbrev CheckOutputFn := Nat → Nat → Bytes → Nat → Bytes → List Bytes → Bool → Except Err Bool
 
-/-- the `vm.Context` of `NewTxVMContext` for a spend. `sigHash` is the value `txSigHashFn`
-    returns; `co` is the `CheckOutput` callback (the standard programs never call it). -/
-def spendContext (cr : Crypto) (co : Option CheckOutputFn) (txVersion blockHeight : Nat) (sigHash : Bytes)
-    (s : SpendInfo) : Context Bytes :=
+/-- the kinds of entry `NewTxVMContext` is called for (tx.go: `case *bc.Issuance`, `*bc.Spend`,
+    `*bc.VetoInput`) -/
+inductive EntryKind where
+  | spend | veto | issuance
+  deriving DecidableEq, Repr
+
+/-- the `vm.Context` of `NewTxVMContext`. `sigHash` is the value `txSigHashFn` returns; `co` is
+    the `CheckOutput` callback (the standard programs never call it).
+    * `Code` is `convertProgram(prog.Code, …)` for EVERY kind: the call sits in the `vm.Context`
+      literal, not in the type switch (`s.code` is the converted program).
+    * the type switch over the entry has arms for `*bc.Issuance` and `*bc.Spend` only: for a veto
+      input `AssetID`, `Amount`, `DestPos`, `SpentOutputID` stay nil; an issuance has no
+      `SpentOutputID`. (Tied to the source by Ties/C02 `context_switch_tie`.) -/
+def inputContext (cr : Crypto) (co : Option CheckOutputFn) (kind : EntryKind) (txVersion blockHeight : Nat)
+    (sigHash : Bytes) (s : SpendInfo) : Context Bytes :=
   { vmVersion := s.vmVersion, code := s.code, stateData := s.stateData, arguments := s.args,
     entryID := s.entryID, txVersion := some txVersion, blockHeight := some blockHeight,
-    assetID := some s.assetID, amount := some s.amount, destPos := some s.destPos,
-    spentOutputID := some s.spentOutputID, txSigHash := some sigHash, checkOutput := co,
+    assetID := (match kind with | .veto => none | _ => some s.assetID),
+    amount := (match kind with | .veto => none | _ => some s.amount),
+    destPos := (match kind with | .veto => none | _ => some s.destPos),
+    spentOutputID := (match kind with | .spend => some s.spentOutputID | _ => none),
+    txSigHash := some sigHash, checkOutput := co,
     verifySig := cr.verify, sha256 := cr.sha256, sha3 := cr.sha3, ripemd160 := cr.ripemd160 }
 
 /-- `vm.Verify(NewTxVMContext(...), gasLimit)` on the value memory; `none` = out of fuel -/
-def verifySpend (cr : Crypto) (co : Option CheckOutputFn) (fuel : Nat) (txVersion blockHeight : Nat)
+def verifyInput (cr : Crypto) (co : Option CheckOutputFn) (fuel : Nat) (kind : EntryKind) (txVersion blockHeight : Nat)
     (sigHash : Bytes) (s : SpendInfo) (gasLimit : Int) : Option (VerifyResult Unit Bytes) :=
-  verifyFuel valueMem (spendContext cr co txVersion blockHeight sigHash s) fuel () gasLimit
+  verifyFuel valueMem (inputContext cr co kind txVersion blockHeight sigHash s) fuel () gasLimit
 
-/-! ### the whole of ValidateTx for spend-only transactions -/
+/-- the spend instance -/
+abbrev spendContext (cr : Crypto) (co : Option CheckOutputFn) (txVersion blockHeight : Nat) (sigHash : Bytes)
+    (s : SpendInfo) : Context Bytes := inputContext cr co .spend txVersion blockHeight sigHash s
+
+abbrev verifySpend (cr : Crypto) (co : Option CheckOutputFn) (fuel : Nat) (txVersion blockHeight : Nat)
+    (sigHash : Bytes) (s : SpendInfo) (gasLimit : Int) : Option (VerifyResult Unit Bytes) :=
+  verifyInput cr co fuel .spend txVersion blockHeight sigHash s gasLimit
+
+/-! ### the whole of ValidateTx for transactions of spends, vetoes and issuances -/
+
+/-- one input as `checkValid` sees it: its kind, the vote key length of the spent vote output
+    (veto), and the context data (`none` = a panic inside a segwit conversion) -/
+structure InputInfo where
+  kind : EntryKind
+  voteLen : Nat
+  info : Option SpendInfo
 
 open BytomModel.Codec hiding Bytes in
 open BytomModel.Entry in
-/-- the spend inputs of a transaction with what the VM context needs, `none` if some input
-    is not a spend; `ids` are the input entry ids of `mapTx` -/
-def spendInfos (H : Bytes → Bytes) (converter : Bytes → Option Bytes) :
-    Nat → List TxInput → List Bytes → Option (List (Option SpendInfo))
+/-- the inputs of a transaction with what the VM context needs, `none` if some input is a
+    coinbase or untyped; `ids` are the input entry ids of `mapTx` -/
+def inputInfos (H : Bytes → Bytes) (converter : Bytes → Option Bytes) :
+    Nat → List TxInput → List Bytes → Option (List InputInfo)
   | _, [], _ => some []
   | ord, i :: rest, ids =>
-    match i.typed, ids with
-    | some (.spend sc _ args), id :: ids' =>
-      match spendInfos H converter (ord + 1) rest ids' with
-      | none => none
-      | some l =>
-        let info : Option SpendInfo := (convertProgram converter sc.program).map fun code =>
-          { vmVersion := sc.vmVersion, code := code, stateData := sc.stateData, args := args,
-            entryID := id, assetID := sc.assetID, amount := sc.amount, destPos := ord,
-            spentOutputID := prevoutID H sc none }
-        some (info :: l)
-    | _, _ => none
+    match ids with
+    | [] => none
+    | id :: ids' =>
+      let one : Option InputInfo :=
+        match i.typed with
+        | some (.spend sc _ args) =>
+          some ⟨.spend, 0, (convertProgram converter sc.program).map fun code =>
+            { vmVersion := sc.vmVersion, code := code, stateData := sc.stateData, args := args,
+              entryID := id, assetID := sc.assetID, amount := sc.amount, destPos := ord,
+              spentOutputID := prevoutID H sc none }⟩
+        | some (.veto sc _ vote args) =>
+          some ⟨.veto, vote.length, (convertProgram converter sc.program).map fun code =>
+            { vmVersion := sc.vmVersion, code := code, stateData := sc.stateData, args := args,
+              entryID := id, assetID := sc.assetID, amount := sc.amount, destPos := ord,
+              spentOutputID := prevoutID H sc (some vote) }⟩
+        | some (.issuance _ amount assetDef vm prog args) =>
+          some ⟨.issuance, 0, (convertProgram converter prog).map fun code =>
+            { vmVersion := vm, code := code, stateData := [], args := args,
+              entryID := id, assetID := issuanceAssetID H assetDef vm prog, amount := amount, destPos := ord,
+              spentOutputID := [] }⟩
+        | _ => none
+      match one, inputInfos H converter (ord + 1) rest ids' with
+      | some x, some l => some (x :: l)
+      | _, _ => none
 
 inductive Verdict where
   | ok (g : Model.TxValidate.Gas)
@@ -131,12 +173,14 @@ section
 open Model.TxValidate
 variable (cr : Crypto) (co : Option CheckOutputFn) (fuel : Nat)
 
-/-- `case *bc.Spend`: vm.Verify with the gas that is left, then `updateUsage` -/
-def runSpend (txVersion blockHeight : Nat) (sigHash : Bytes) (g : Gas) (s : Option SpendInfo) : Except Verdict Gas :=
-  match s with
+/-- `case *bc.Spend` / `*bc.VetoInput` / `*bc.Issuance`: (veto: the spent vote output's key must
+    have 64 bytes;) vm.Verify with the gas that is left, then `updateUsage` -/
+def runSpend (txVersion blockHeight : Nat) (sigHash : Bytes) (g : Gas) (i : InputInfo) : Except Verdict Gas :=
+  if i.kind = .veto ∧ i.voteLen ≠ voteKeyLen then .error (.val .votepubkey) else
+  match i.info with
   | none => .error .panic
   | some s =>
-    match verifySpend cr co fuel txVersion blockHeight sigHash s g.gasLeft with
+    match verifyInput cr co fuel i.kind txVersion blockHeight sigHash s g.gasLeft with
     | none => .error .fuel
     | some r =>
       match r.err with
@@ -147,7 +191,7 @@ def runSpend (txVersion blockHeight : Nat) (sigHash : Bytes) (g : Gas) (s : Opti
         | .error e => .error (.val e)
 
 /-- the `for i, src := range e.Sources` loop of `case *bc.Mux` -/
-def runSpends (H : Bytes → Bytes) (txVersion blockHeight : Nat) (txid : Bytes) : Gas → List (Option SpendInfo) → List Bytes → Except Verdict Gas
+def runSpends (H : Bytes → Bytes) (txVersion blockHeight : Nat) (txid : Bytes) : Gas → List InputInfo → List Bytes → Except Verdict Gas
   | g, [], _ => .ok g
   | g, s :: rest, id :: ids =>
     match runSpend cr co fuel txVersion blockHeight (Entry.sigHash H id txid) g s with
@@ -163,7 +207,7 @@ open BytomModel.Codec hiding Bytes in
 open BytomModel.Entry in
 /-- `checkValid` `case *bc.Mux` -/
 def checkMux (H : Bytes → Bytes) (blockHeight : Nat) (tx : TxData) (m : MappedTx)
-    (infos : List (Option SpendInfo)) (sources : List (Nat × Nat)) : Except Verdict Gas := do
+    (infos : List InputInfo) (sources : List (Nat × Nat)) : Except Verdict Gas := do
   let m1 ← liftVal (addSources [] sources)
   let m2 ← liftVal (subDests m1 (tx.outputs.map fun o => (assetClass (outAsset o), outAmount o)))
   let g1 ← liftVal (parityLoop (Fixed.wrapI 64 tx.serializedSize) Gas.zero (btmFirst m2))
@@ -196,7 +240,7 @@ def hasDupB : List Bytes → Bool
 open BytomModel.Codec hiding Bytes in
 open BytomModel.Entry in
 /-- `validation.ValidateTx(tx, block, converter)` for a decoded transaction whose inputs are
-    all spends (anything else: `unsupported`) -/
+    spends, vetoes and issuances (a coinbase input: `unsupported`) -/
 def validateSpendTx (H : Bytes → Bytes) (converter : Bytes → Option Bytes) (blockVersion blockHeight : Nat)
     (tx : TxData) : Verdict :=
   match mapTx H tx with
@@ -206,12 +250,14 @@ def validateSpendTx (H : Bytes → Bytes) (converter : Bytes → Option Bytes) (
     else if tx.serializedSize = 0 then .val .size
     else if tx.timeRange ≠ 0 ∧ tx.timeRange < blockHeight then .val .timerange
     else if hasDupB m.inputIDs then .val .doublespend
-    else match spendInfos H converter 0 tx.inputs m.inputIDs with
+    else match inputInfos H converter 0 tx.inputs m.inputIDs with
       | none => .unsupported
       | some infos =>
         let sources := tx.inputs.filterMap fun i =>
           match i.typed with
           | some (.spend sc _ _) => some (assetClass sc.assetID, sc.amount)
+          | some (.veto sc _ _ _) => some (assetClass sc.assetID, sc.amount)
+          | some (.issuance _ amount assetDef vm prog _) => some (assetClass (issuanceAssetID H assetDef vm prog), amount)
           | _ => none
         match checkResults (fun _ => checkMux cr co fuel H blockHeight tx m infos sources) none tx.outputs with
         | .error v => v
